@@ -118,6 +118,8 @@ pub fn c01() -> SimCheck {
     SimCheck {
         id: "C01",
         bias: Bias {
+            // 3-5 nodes, even sizes included (a majority of 4 is 3)
+            voters: vec![3, 4, 5, 3, 4],
             w_isolate: 8,
             w_partition: 8,
             w_crash: 4,
@@ -532,6 +534,9 @@ pub fn c32() -> SimCheck {
             w_isolate: 8,
             w_partition: 8,
             probe_recovery: true,
+            // clients that keep polling cluster metadata (every node, faster than the election timeout) while the
+            // cluster recovers: traffic that is not from a leader must not keep followers from campaigning
+            poll_metadata: true,
             tail_ms: (200, 600),
             ..write_bias()
         },
@@ -652,6 +657,15 @@ pub fn c26() -> SimCheck {
             }
             out.nontrivial = differ;
             out.fingerprint = fp(&(sets, res.labels.iter().collect::<Vec<_>>()));
+            // the quorum a leader actually USES to commit must be a majority of its current voter set (a leader that
+            // keeps counting with the configuration from before a promotion commits with a quorum that need not
+            // intersect the quorums of the new configuration)
+            if let Some((s, d)) = monitors::check_c09_cluster(res) {
+                if s == "C09:commit-without-voter-majority" {
+                    out.violate("C26:commit-quorum-not-a-majority-of-current-voters", d);
+                    return;
+                }
+            }
             if let Some((s, d)) = crate::sim::memmon::check_c26(res) {
                 out.violate(s, d);
             }
